@@ -29,6 +29,7 @@ type N struct {
 	L0                     []Iface
 	LP                     []*N
 	V0                     string
+	M0                     Missing // by-type point that no component can satisfy
 	rt                     *RT
 	Idx                    int
 }
@@ -172,6 +173,30 @@ func (p *Proc) mk(c any, name, tag string, share bool) any {
 	return x
 }
 
+func (p *Proc) PostProcessBeforeInstantiation(m *cd.Meta, name string) (any, error) {
+	if NodeOf(m.Raw) == nil {
+		return nil, nil
+	}
+	return nil, p.rt.Fault("binst:" + p.Nm + ":" + name)
+}
+
+func (p *Proc) PostProcessAfterInstantiation(c any, name string) (bool, error) {
+	if NodeOf(c) == nil {
+		return false, nil
+	}
+	if err := p.rt.Fault("ainst:" + p.Nm + ":" + name); err != nil {
+		return false, err
+	}
+	return true, nil
+}
+
+func (p *Proc) PostProcessProperties(props []*cd.Property, c any, name string) ([]*cd.Property, error) {
+	if NodeOf(c) == nil {
+		return nil, nil
+	}
+	return nil, p.rt.Fault("props:" + p.Nm + ":" + name)
+}
+
 func (p *Proc) GetEarlyBeanReference(c any, name string) (any, error) {
 	if NodeOf(c) == nil {
 		return c, nil
@@ -274,6 +299,59 @@ type GraphProg struct {
 	Choices []int   `json:"choices,omitempty"`
 	Family  string  `json:"family,omitempty"`
 	Config  bool    `json:"config,omitempty"` // bind slot V0 of every node from configuration (value tag)
+	Full    bool    `json:"full,omitempty"`   // add two loaders, two runners, a scanner and a factory post-processor (fault sites)
+	Extra   []Extra `json:"extra,omitempty"`  // additional unsatisfiable points
+}
+
+// Extra is an additional injection point / configuration value that cannot be satisfied.
+type Extra struct {
+	Node int    `json:"node"`
+	Kind string `json:"kind"` // name-req name-opt type-req type-opt cfg-req cfg-opt
+}
+
+// Runner is an application runner with a fault site.
+type Runner struct {
+	Nm string
+	rt *RT
+}
+
+func (r *Runner) Naming() string { return r.Nm }
+func (r *Runner) Run() error {
+	r.rt.Event("run:" + r.Nm)
+	return r.rt.Fault("run:" + r.Nm)
+}
+
+// FaultLoader is a configuration loader with a fault site.
+type FaultLoader struct {
+	Nm  string
+	Doc string
+	rt  *RT
+}
+
+func (l *FaultLoader) LoadConfig() ([]byte, error) {
+	if err := l.rt.Fault("load:" + l.Nm); err != nil {
+		return nil, err
+	}
+	return []byte(l.Doc), nil
+}
+
+// FaultScanner is a definition-registry post-processor with one fault site per node.
+type FaultScanner struct{ rt *RT }
+
+func (*FaultScanner) Naming() string { return "zz-faultscanner" }
+func (f *FaultScanner) PostProcessDefinitionRegistry(r container.DefinitionRegistry, c any, name string) error {
+	if NodeOf(c) == nil {
+		return nil
+	}
+	return f.rt.Fault("scan:" + name)
+}
+
+// FaultFPP is a component-factory post-processor with a fault site.
+type FaultFPP struct{ rt *RT }
+
+func (*FaultFPP) Naming() string { return "zz-faultfpp" }
+func (f *FaultFPP) PostProcessComponentFactory(container.Factory) error {
+	return f.rt.Fault("factorypp")
 }
 
 // Name of node i in a program with n nodes: creation order is alphabetical, so names are ordered
@@ -352,6 +430,21 @@ func (p *GraphProg) Tags() (tags map[string]map[string]string, slots [][]string)
 		}
 		if s > 6 || ptr > 4 {
 			panic("graph program needs more slots than the universal node has")
+		}
+		for _, x := range p.Extra {
+			if x.Node != i {
+				continue
+			}
+			switch x.Kind {
+			case "name-req":
+				t["S5"] = "nobody"
+			case "name-opt":
+				t["S5"] = "nobody,required=false"
+			case "type-req":
+				t["M0"] = ""
+			case "type-opt":
+				t["M0"] = ",required=false"
+			}
 		}
 		if len(ql) > 0 {
 			t["L0"] = ",qualifier=" + strings.Join(ql, " ")
@@ -446,10 +539,25 @@ func RunGraph(p *GraphProg, ch *envx.Chooser) *GraphObs {
 		for i := 0; i < p.N; i++ {
 			nm := Name(i, p.N)
 			vt[nm] = map[string]string{"V0": "${cfg." + nm + "}"}
+			for _, x := range p.Extra {
+				if x.Node == i && x.Kind == "cfg-req" {
+					vt[nm]["V0"] = "${cfg.nokey}"
+				}
+				if x.Node == i && x.Kind == "cfg-opt" {
+					vt[nm]["V0"] = "${cfg.nokey},required=false"
+				}
+			}
 			sb.WriteString("  " + nm + ": v-" + nm + "\n")
 		}
 		comps = append(comps, NewValueScanner(vt))
-		opts = append(opts, app.SetConfigLoader(loader.NewRawLoader([]byte(sb.String()))))
+		if p.Full {
+			opts = append(opts, app.SetConfigLoader(&FaultLoader{Nm: "l1", Doc: sb.String(), rt: rt}, &FaultLoader{Nm: "l2", Doc: "other:\n  k: 1\n", rt: rt}))
+		} else {
+			opts = append(opts, app.SetConfigLoader(loader.NewRawLoader([]byte(sb.String()))))
+		}
+	}
+	if p.Full {
+		comps = append(comps, &Runner{Nm: "zz-run1", rt: rt}, &Runner{Nm: "zz-run2", rt: rt}, &FaultScanner{rt: rt}, &FaultFPP{rt: rt})
 	}
 	anyWrap := false
 	for _, w := range p.Wrap {
